@@ -376,3 +376,30 @@ Proof. exact exec_total. Qed.
 Print Assumptions C01_real_interpreter_follows_unbounded_path.
 
 Example C01_total_witness := clt_demo.
+
+(* ... with the path hypothesis replaced by a STATIC check of the program (no input, no run):
+   CompileCfSafe.tyck_auto, a decidable frame-shape verifier, proved sound (cf_sound: it implies path_ok for
+   every input and start position).  Leg c01-frag evaluates it on every real program of the corpus. *)
+From Verif Require Import Proofs.CompileCfSafe.
+
+Theorem C01_static_check_implies_path_ok :
+  forall (e : env) (p : program), tyck_auto p = true -> forall t, path_ok e p (a0 p t).
+Proof. exact cf_sound. Qed.
+Print Assumptions C01_static_check_implies_path_ok.
+
+Theorem C01_exec_total_typed :
+  forall (e : env) (p : program), 0 <= trackcount p -> track_count (codes p) <= trackcount p -> tlen e <= INF ->
+  forall fuel o body t0 r,
+  let root := NCapture o 0 (-1) body in
+  codes p = fst (compile cfg0 root) -> strings p = snd (compile cfg0 root) ->
+  supported2 root = true -> groups_ok2 (capsize p) root -> 0 <= t0 <= tlen e -> Z.of_nat fuel <= INF ->
+  attempt e fuel root t0 = Ok r ->
+  tyck_auto p = true ->
+  exists n : nat, forall L vfuel,
+    let x := exec_at e p L vfuel t0 in
+    ((x = Err E_StackLimit /\ 0 <= L) \/
+     ((n < 1000 * vfuel)%nat /\ exists s', x = Ok s') \/
+     ((1000 * vfuel <= n)%nat /\ x = Fuel)) /\
+    (L < 0 -> (n < 1000 * vfuel)%nat -> exists s', x = Ok s').
+Proof. exact compile_exec_total_typed. Qed.
+Print Assumptions C01_exec_total_typed.
